@@ -16,12 +16,14 @@
 EXTENDS Runs, TLC
 
 VARIABLES cfg,      \* [bound, mode] as in DrfChannel
-          fst,      \* fst[j] = [st: "none" | "open" | "closed" | "final", bad: an operation on this file failed]
+          fst,      \* fst[j] = [st: "none" | "open" | "closed" | "final" | "orphan", bad: an operation on this file failed]
+                    \*   ("orphan": a tmp. file a killed process left behind; whoever comes later may remove it or create the
+                    \*    name anew, but never write into it or publish it)
           pst,      \* properties file: [st, bad] likewise (staged under a tmp. name)
           want,     \* ghost: samples of every write call begun so far
           acc,      \* ghost: samples of the write calls that returned success
           calls,    \* history of API calls: sequence of [op, runs, resp ("pending" | "ok" | "err"), flt (a fault was injected during it)]
-          crashed,  \* the process was killed
+          crashed,  \* 0: never killed; 1: the process was killed (dead now); 2: a new process runs on the tree it left
           flt,      \* number of injected faults so far
           last
 
@@ -38,12 +40,13 @@ FInit(c) ==
   /\ fst = [j \in 1..(Len(c.bound) - 1) |-> NoFile]
   /\ pst = NoFile
   /\ want = <<>> /\ acc = <<>> /\ calls = <<>>
-  /\ crashed = FALSE /\ flt = 0
+  /\ crashed = 0 /\ flt = 0
   /\ last = [a |-> "Init"]
 
 Finals == {j \in 1..NW : fst[j].st = "final"}
 Tmps == {j \in 1..NW : fst[j].st \in {"open", "closed"}}
-Alive == ~crashed
+Alive == crashed # 1
+Orphans == {j \in 1..NW : fst[j].st = "orphan"}     \* tmp. files of a dead process
 
 Op(name, j, ok) == [a |-> name, j |-> j, ok |-> ok]
 Bad(r, ok) == [r EXCEPT !.bad = @ \/ ~ok]
@@ -54,8 +57,8 @@ Bad(r, ok) == [r EXCEPT !.bad = @ \/ ~ok]
 Mkdir(ok) == Alive /\ last' = Op("Mkdir", 0, ok) /\ UNCHANGED pvars
 \* HDF5 probes with a non-creating open before the exclusive create; the probe finds nothing
 ProbeTmp(j) == Alive /\ fst[j].st = "none" /\ last' = Op("ProbeTmp", j, FALSE) /\ UNCHANGED pvars
-CreateTmp(j, ok) ==
-  /\ Alive /\ fst[j].st = "none"
+CreateTmp(j, ok) ==      \* (over an orphan: a truncating create makes the name the new session's own file)
+  /\ Alive /\ fst[j].st \in {"none", "orphan"}
   /\ fst' = [fst EXCEPT ![j] = IF ok THEN [st |-> "open", bad |-> FALSE, cl |-> FALSE] ELSE @]
   /\ last' = Op("CreateTmp", j, ok) /\ UNCHANGED <<cfg, pst, want, acc, calls, crashed, flt>>
 PWrite(j, ok) ==     \* write / pwrite / ftruncate on the open tmp. file
@@ -74,7 +77,7 @@ Rename(j, ok) ==
   /\ fst' = [fst EXCEPT ![j] = IF ok THEN [st |-> "final", bad |-> @.bad, cl |-> TRUE] ELSE @]
   /\ last' = Op("Rename", j, ok) /\ UNCHANGED <<cfg, pst, want, acc, calls, crashed, flt>>
 RemoveTmp(j, ok) ==     \* only a tmp. file may be removed
-  /\ Alive /\ fst[j].st \in {"open", "closed"}
+  /\ Alive /\ fst[j].st \in {"open", "closed", "orphan"}
   /\ fst' = [fst EXCEPT ![j] = IF ok THEN NoFile ELSE @]
   /\ last' = Op("RemoveTmp", j, ok) /\ UNCHANGED <<cfg, pst, want, acc, calls, crashed, flt>>
 
@@ -83,12 +86,13 @@ RemoveTmp(j, ok) ==     \* only a tmp. file may be removed
 (***************************************************************************)
 PropsOp(name, ok) ==
   /\ Alive
-  /\ CASE name = "Probe"  -> pst.st = "none" /\ ~ok /\ pst' = pst
-       [] name = "Create" -> pst.st = "none" /\ pst' = (IF ok THEN [st |-> "open", bad |-> FALSE, cl |-> FALSE] ELSE pst)
+  /\ CASE name = "Probe"  -> ((pst.st = "none" /\ ~ok) \/ pst.st = "orphan") /\ pst' = pst
+       [] name = "Create" -> pst.st \in {"none", "orphan"} /\ pst' = (IF ok THEN [st |-> "open", bad |-> FALSE, cl |-> FALSE] ELSE pst)
        [] name = "PWrite" -> pst.st = "open" /\ pst' = Bad(pst, ok)
-       [] name = "Close"  -> pst.st = "open" /\ pst' = [st |-> "closed", bad |-> pst.bad \/ ~ok, cl |-> TRUE]
+       [] name = "Close"  -> \/ pst.st = "open" /\ pst' = [st |-> "closed", bad |-> pst.bad \/ ~ok, cl |-> TRUE]
+                             \/ pst.st = "orphan" /\ pst' = pst          \* the descriptor of a probe
        [] name = "Rename" -> pst.st = "closed" /\ pst' = (IF ok THEN [st |-> "final", bad |-> pst.bad, cl |-> TRUE] ELSE pst)
-       [] name = "Remove" -> pst.st \in {"open", "closed"} /\ pst' = (IF ok THEN NoFile ELSE pst)
+       [] name = "Remove" -> pst.st \in {"open", "closed", "orphan"} /\ pst' = (IF ok THEN NoFile ELSE pst)
   /\ last' = Op("Props" \o name, 0, ok) /\ UNCHANGED <<cfg, fst, want, acc, calls, crashed, flt>>
 
 (***************************************************************************)
@@ -109,13 +113,24 @@ Inject ==
   /\ Alive /\ flt' = flt + 1
   /\ calls' = IF (IF calls = <<>> THEN FALSE ELSE calls[Len(calls)].resp = "pending") THEN [calls EXCEPT ![Len(calls)].flt = TRUE] ELSE calls
   /\ UNCHANGED <<cfg, fst, pst, want, acc, crashed, last>>
-Crash == /\ Alive /\ crashed' = TRUE /\ last' = [a |-> "Crash"] /\ UNCHANGED <<cfg, fst, pst, want, acc, calls, flt>>
+Crash == /\ Alive /\ crashed' = 1 /\ last' = [a |-> "Crash"] /\ UNCHANGED <<cfg, fst, pst, want, acc, calls, flt>>
+\* A new recorder process on the tree the dead one left: what was in progress is an orphan now; the samples the dead
+\* process had accepted but not published are gone with it (acc starts again), the call it died in is over
+Orphaned(r) == IF r.st \in {"open", "closed"} THEN [st |-> "orphan", bad |-> r.bad, cl |-> FALSE] ELSE r
+Restart ==
+  /\ crashed = 1 /\ crashed' = 2
+  /\ fst' = [j \in 1..NW |-> Orphaned(fst[j])] /\ pst' = Orphaned(pst)
+  /\ acc' = <<>>
+  /\ calls' = [i \in 1..Len(calls) |-> IF calls[i].resp = "pending" THEN [calls[i] EXCEPT !.resp = "err"] ELSE calls[i]]
+  /\ last' = [a |-> "Restart"] /\ UNCHANGED <<cfg, want, flt>>
 
 (***************************************************************************)
 (* Properties of the protocol (hold by the guards; TLC confirms them for   *)
 (* every interleaving with crashes, faults and reader passes in MCDrfFs)   *)
 (***************************************************************************)
-TypeOK == \A j \in 1..NW : fst[j].st \in {"none", "open", "closed", "final"}
+TypeOK == \A j \in 1..NW : fst[j].st \in {"none", "open", "closed", "final", "orphan"}
+\* C02 across a restart: what a dead process left in progress is never published (it can only be removed or created anew)
+OrphanNeverPublished == [][\A j \in 1..NW : fst[j].st = "orphan" => fst'[j].st \in {"orphan", "none", "open"}]_vars
 FinalComplete == \A j \in Finals : fst[j].cl                      \* C02 / C10: nothing with a failed write is published
 FinalImmutable == [][\A j \in Finals : fst'[j] = fst[j]]_vars       \* C02: a final file never changes again
 VisibilityMonotone == [][Finals \subseteq Finals']_vars            \* C09
